@@ -190,6 +190,9 @@ def to_trace(pid, wl, pt):
         elif ev["e"] == "Ack":
             t.append({"e": "Ack", "ok": ev["ok"], "b": pos[(ev["i"], ev.get("j", 0))]})
     rec = pt["rec"]
+    for name, dmp in list(rec.items()):          # error replies carry Go stack traces: keep the message only
+        if name.startswith("dump") and isinstance(dmp, dict):
+            rec[name] = {k: (v.split("\n")[0][:160] if isinstance(v, str) and v.startswith("ERR:") else v) for k, v in dmp.items()}
     blank = {k: "ERR:not opened" for k in wl["keys"]}
     t.append({"e": "Recovered", "open": bool(rec.get("open")), "dump": rec.get("dump1") or blank})
     if pid == "C11" and rec.get("open"):
